@@ -22,7 +22,7 @@ import (
 
 func TestMain(m *testing.M) { drv.Main(m) }
 
-const rule = "between mint epochs the end/start signals of other timers (week/day/hour, epoch numbers incl. the configured start epoch) are delivered and must leave the mint store and the supply untouched; mint parameters drawn per case: four 18-decimal proportions summing to 1 (zeros included), reduction factor in (0,1], reduction period 1..10 epochs, start epoch 0..5, 0-6 weighted developer receivers (weights summing to 1, empty addresses included), initial provision 0..1e18 incl. fractional values, pool-incentives distribution records with random weights incl. the community-pool gauge 0 or none; then 1..40 consecutive AfterEpochEnd signals of the mint epoch (a failing hook is rolled back as the epochs module does); oracle in big.Rat: provision multiplied by the factor exactly at epochs e >= period + lastReduction (first at start+period) and never otherwise, nothing before the start epoch; per epoch: fee collector +floor(p*staking), developer receivers +floor(floor(p*dev)*w_i), pool-incentives + incentives + community pool together + floor(p*pool) + remainder + empty-address shares, mint module balance 0, reported supply (with offset) + floor(p) minus the receiver-truncation dust that stays in the vesting account; non-trivial = a reduction happened inside the run and >= 2 proportions have non-integral shares; distinct by parameter hash"
+const rule = "between mint epochs the end/start signals of other timers (week/day/hour, epoch numbers incl. the configured start epoch) are delivered and must leave the mint store and the supply untouched; mint parameters drawn per case: four 18-decimal proportions summing to 1 (zeros included), reduction factor in (0,1], reduction period 1..10 epochs, start epoch 0..5, 0-6 weighted developer receivers (weights summing to 1, empty addresses included), initial provision 0..1e18 incl. fractional values, developer vesting account amply funded or (a quarter of the cases) holding before every epoch exactly that epoch's developer share plus a slack smaller than the rest of the provision, pool-incentives distribution records with random weights incl. the community-pool gauge 0 or none; then 1..40 consecutive AfterEpochEnd signals of the mint epoch (a failing hook is rolled back as the epochs module does); oracle in big.Rat: provision multiplied by the factor exactly at epochs e >= period + lastReduction (first at start+period) and never otherwise, nothing before the start epoch; per epoch: fee collector +floor(p*staking), developer receivers +floor(floor(p*dev)*w_i), pool-incentives + incentives + community pool together + floor(p*pool) + remainder + empty-address shares, mint module balance 0, reported supply (with offset) + floor(p) minus the receiver-truncation dust that stays in the vesting account; non-trivial = a reduction happened inside the run and >= 2 proportions have non-integral shares; distinct by parameter hash"
 
 var e18 = new(big.Int).Exp(big.NewInt(10), big.NewInt(18), nil)
 
@@ -158,7 +158,54 @@ func TestPropMint(t *testing.T) {
 		reductions, fractional := 0, 0
 		nep := rapid.IntRange(1, 40).Draw(rt, "epochs")
 		first := int64(rapid.IntRange(0, int(params.MintingRewardsDistributionStartEpoch)).Draw(rt, "firstEpoch"))
+		// in a quarter of the cases the developer vesting account is nearly spent: before every paying epoch it holds exactly the
+		// developer share of that epoch plus a slack below the rest of the provision (it still covers what it has to pay)
+		tight := rapid.IntRange(0, 3).Draw(rt, "vestingAccountNearlySpent") == 0
+		sink := chain.Actor(7)
 		for e := first; e < first+int64(nep); e++ {
+			if tight && e >= params.MintingRewardsDistributionStartEpoch {
+				np, lr := new(big.Rat).Set(provR), lastReduction
+				if e == params.MintingRewardsDistributionStartEpoch {
+					lr = e
+				}
+				if e >= params.ReductionPeriodInEpochs+lr {
+					np = mulDec(np, factor)
+				}
+				pInt := floorRat(np)
+				dvN := floorRat(mulDec(new(big.Rat).SetInt(pInt), decRat(props[2])))
+				target := new(big.Int).Set(dvN)
+				if room := new(big.Int).Sub(pInt, dvN); room.Sign() > 0 {
+					switch rapid.IntRange(0, 2).Draw(rt, "vestingSlack") {
+					case 1:
+						target.Add(target, big.NewInt(1))
+						if target.Cmp(pInt) >= 0 {
+							target.Set(dvN)
+						}
+					case 2:
+						k := big.NewInt(rapid.Int64Range(0, 1<<40).Draw(rt, "slackFrac"))
+						sl := new(big.Int).Mul(room, k)
+						sl.Rsh(sl, 41)
+						target.Add(target, sl)
+					}
+					if target.Cmp(pInt) < 0 && dvN.Sign() > 0 {
+						cs.Class("vesting-balance-below-provision")
+					}
+				}
+				cur := bal(devAcc)
+				if d := new(big.Int).Sub(cur, target); d.Sign() > 0 {
+					if err := c.App.BankKeeper.SendCoinsFromModuleToAccount(c.Ctx, minttypes.DeveloperVestingModuleAcctName, sink, sdk.NewCoins(sdk.NewCoin(denom, osmomath.NewIntFromBigInt(d)))); err != nil {
+						rt.Fatalf("harness: %v", err)
+					}
+				} else if d.Sign() < 0 {
+					add := sdk.NewCoins(sdk.NewCoin(denom, osmomath.NewIntFromBigInt(d.Neg(d))))
+					if err := c.App.BankKeeper.MintCoins(c.Ctx, minttypes.ModuleName, add); err != nil {
+						rt.Fatalf("harness: %v", err)
+					}
+					if err := c.App.BankKeeper.SendCoinsFromModuleToModule(c.Ctx, minttypes.ModuleName, minttypes.DeveloperVestingModuleAcctName, add); err != nil {
+						rt.Fatalf("harness: %v", err)
+					}
+				}
+			}
 			pre := map[string]*big.Int{"mint": bal(mintAcc), "fee": bal(feeAcc), "pi": bal(piAcc), "inc": bal(incAcc), "cp": bal(cpAcc), "dev": bal(devAcc)}
 			preRecv := make([]*big.Int, len(recvAddrs))
 			for i, a := range recvAddrs {
